@@ -303,11 +303,15 @@ def build(dm, annexed, names=None, cache=True, omp=None):
 
 
 def _apply_omp(sched, loop, kern, mode):
+    """mode: "paralleldo" | "do" | "do-reprod", or a pair (mode, omp_schedule)."""
     from psyclone.transformations import DynamoOMPParallelLoopTrans, Dynamo0p3OMPLoopTrans, OMPParallelTrans
+    schedule = "static"
+    if isinstance(mode, (tuple, list)):
+        mode, schedule = mode
     if mode == "paralleldo":
-        DynamoOMPParallelLoopTrans().apply(loop)
+        DynamoOMPParallelLoopTrans(omp_schedule=schedule).apply(loop)
     else:
-        Dynamo0p3OMPLoopTrans().apply(loop, {"reprod": mode == "do-reprod"})
+        Dynamo0p3OMPLoopTrans(omp_schedule=schedule).apply(loop, {"reprod": mode == "do-reprod"})
         OMPParallelTrans().apply(loop.parent.parent)
 
 
@@ -342,6 +346,10 @@ def _from_text(text, p, rec):
     out["after_loop"] = [l for l in code[ends[-1] + 1:] if not l.startswith("END SUBROUTINE")
                          and not l.startswith("!$")] if ends else []
     out["omp_lines"] = [l for l in lines if l.startswith("!$omp")]
+    # the OpenMP directives that enclose the DoF loop (everything opened and not closed before the DO)
+    first_do = next((i for i, l in enumerate(lines) if re.match(r"DO \w+\s*=", l)), len(lines))
+    out["omp_enclosing"] = [l for l in lines[:first_do] if l.startswith("!$omp") and not l.startswith("!$omp end")]
+    out["region_text"] = text
     out["code_lines"] = code
     shape_ok = (len(dos) == 1 and len(ends) == 1 and len(body) == 1
                 and _norm_f(code[dos[0]]) == _norm_f(f"DO {p['dfname']} = loop0_start, loop0_stop, 1")
